@@ -1587,6 +1587,35 @@ fn c13_text_running_past_the_payload(ctx: &mut Ctx, rng: &mut Rng) {
     }
 }
 
+/// frames whose own checksum bytes read like the start of another frame (d3 0x yy, zz d3 0x, .. .. d3): what
+/// follows such a frame -- nothing, one byte, two bytes -- must not change what is reported about it
+fn c13_checksum_reads_like_a_header(ctx: &mut Ctx, rng: &mut Rng) {
+    let l = rng.range(3, 200) as usize;
+    let mut payload = rng.bytes(l);
+    if rng.bool() {
+        let n = *rng.pick(gen::supported_numbers());
+        bits::write(&mut payload, 0, 12, n as u128);
+    }
+    let target: u32 = match rng.below(3) {
+        0 => 0xD3_0000 | (rng.below(4) as u32) << 8 | rng.below(256) as u32,
+        1 => (rng.below(256) as u32) << 16 | 0xD300 | rng.below(4) as u32,
+        _ => (rng.below(65536) as u32) << 8 | 0xD3,
+    };
+    let mut pre = vec![0xD3u8, ((l >> 8) & 3) as u8, l as u8];
+    pre.extend_from_slice(&payload[..l - 3]);
+    let tail = crc::solve_tail(&pre, target);
+    payload[l - 3..].copy_from_slice(&tail);
+    let f = crc::frame(&payload);
+    let n = f.len();
+    if ((f[n - 3] as u32) << 16 | (f[n - 2] as u32) << 8 | f[n - 1] as u32) != target {
+        ctx.count("checksum_construction_failed");
+        return;
+    }
+    ctx.count("frames_whose_checksum_reads_like_a_header");
+    let sfx: Vec<Vec<u8>> = vec![vec![0x00], vec![0x03], vec![rng.u8()], vec![0x00, 0x00], vec![0x01, rng.u8()], vec![rng.u8(), rng.u8()], vec![0, 0, 0], rng.bytes(7)];
+    c13_check(ctx, &f, &sfx, "frames_whose_checksum_reads_like_a_header");
+}
+
 fn suffix_set(rng: &mut Rng) -> Vec<Vec<u8>> {
     let mut v: Vec<Vec<u8>> = Vec::new();
     v.push(vec![rng.u8()]);
@@ -1673,6 +1702,9 @@ pub fn c13(p: &Params) -> Outcome {
                 c13_check(ctx, &f, &sfx, "typed_frames");
                 if i % 8 == 3 {
                     c13_text_running_past_the_payload(ctx, &mut rng);
+                }
+                if i % 8 == 5 {
+                    c13_checksum_reads_like_a_header(ctx, &mut rng);
                 }
                 c13_after_near_copy(ctx, &mut rng, &f);
                 c13_decode_twice(ctx, &mut rng, &f);
